@@ -14,6 +14,12 @@ type Node struct {
 	// leaf
 	Var string // variable name without '$'
 	Lit bool   // print the literal value instead of the variable
+	// LitText, when set on a literal leaf, is the exact source text of the literal (numeric
+	// literal classes: float, scientific, hex/octal/binary, '_' separators)
+	LitText string
+	// NegDet: unary minus written detached from its operand (`- 2.5` instead of `-2.5`), so
+	// that the lexer cannot glue the sign into a signed-number token
+	NegDet bool
 	// assignment target (KAsg)
 	Target string
 	// spacing of a binary + / - : 0 "a - b", 1 "a -b", 2 "a-b"
@@ -137,7 +143,28 @@ const (
 	Min   Mode = iota // minimal parentheses per the table
 	Full              // every operator sub-expression parenthesised
 	Extra             // minimal plus seeded redundant parentheses (also around leaves)
+	Leafy             // minimal plus parentheses around every literal operand: `-(2.5) ** (2)`
 )
+
+// Numeric literal classes: source text per int-typed variable slot. Every class keeps the
+// second operand ($b) an even number so that `-<lit> ** <lit>` tells (-x)**y from -(x**y).
+// Not generated: `.5` (origami has no leading-dot literals: both printings are rejected),
+// `0o17` and `0x1_F` (not decoded at all: 0 in every printing).
+var litClasses = map[string]map[string]string{
+	"flt":   {"a": "7.5", "b": "2.", "c": "3.25", "d": "1.5", "e": "10.0"},
+	"zflt":  {"a": "0.5", "b": "2.0", "c": "0.125", "d": "0.75", "e": "00.5"},
+	"sci":   {"a": "1e1", "b": "2e0", "c": "1.5E-2", "d": "5E+0", "e": "25e-1"},
+	"radix": {"a": "0x1F", "b": "0b10", "c": "03", "d": "0X0a", "e": "017"},
+	"sep":   {"a": "1_0", "b": "2", "c": "1_2.5", "d": "1_000", "e": "0x1f"},
+	// one operand of every class (the triple cells use only this mixed style)
+	"num": {"a": "2.5", "b": "2e0", "c": "0x3", "d": "1_0", "e": "0.5"},
+}
+
+var litClassNames = []string{"flt", "zflt", "sci", "radix", "sep"}
+
+// numeric literal pool of the random trees (all classes)
+var numLitPool = []string{"7", "2", "3", "5", "4", "7.5", "2.", "3.25", "1.5", "0.5", "2.0", "0.125",
+	"1e1", "2e0", "1.5E-2", "5E+0", "25e-1", "0x1F", "0b10", "03", "0X0a", "017", "1_0", "1_2.5", "1_000"}
 
 // literal values used when a leaf is printed as a literal (non-negative: a negative
 // literal is the unary minus operator applied to a literal and is generated as such)
@@ -158,6 +185,9 @@ type printer struct {
 
 func (p *printer) leafText(n *Node) string {
 	if n.Lit {
+		if n.LitText != "" {
+			return n.LitText
+		}
 		if v, ok := litValue[n.Var]; ok {
 			return v
 		}
@@ -188,7 +218,7 @@ func (p *printer) expr(n *Node) string {
 		return l + " " + sym + " " + r
 	case KPre:
 		o := p.child(n, 0)
-		if n.Op.Sym == "-" && (o[0] == '-') {
+		if n.Op.Sym == "-" && (o[0] == '-' || n.NegDet) {
 			return "- " + o
 		}
 		return n.Op.Sym + o
@@ -204,6 +234,12 @@ func (p *printer) child(parent *Node, pos int) string {
 	k := parent.Kids[pos]
 	if k.Op == nil {
 		s := p.leafText(k)
+		if p.mode == Leafy {
+			if k.Lit {
+				return "(" + s + ")"
+			}
+			return s
+		}
 		if p.mode == Extra && p.rng.Intn(4) == 0 {
 			if p.noParenLitUnderNeg && k.Lit && parent.Op.Name == "neg" {
 				return s
